@@ -2,7 +2,9 @@
 """Copies confirmed seeded changes from /tmp/seeded-out/<ID>/<k>/ into /verif/seeded/<ID>-<k>/ (patch.diff rebased on
 /repo HEAD at confirmation time, demo.sh, meta.md, meta.json)."""
 import json, os, shutil, subprocess, sys, re
-SRC = "/tmp/seeded-out"
+SRC = sys.argv[1] if len(sys.argv) > 1 else "/tmp/seeded-out"
+OFFSET = int(sys.argv[2]) if len(sys.argv) > 2 else 0
+ROUND = sys.argv[3] if len(sys.argv) > 3 else "1"
 DST = "/verif/seeded"
 head = subprocess.run(["git", "-C", "/repo", "rev-parse", "--short", "HEAD"], capture_output=True, text=True).stdout.strip()
 n = 0
@@ -20,7 +22,9 @@ for pid in sorted(os.listdir(SRC)):
         if not ok:
             print("NOT CONFIRMED", s, conf)
             continue
-        out = os.path.join(DST, "%s-%s" % (pid, k))
+        if not k.isdigit():
+            continue
+        out = os.path.join(DST, "%s-%d" % (pid, int(k) + OFFSET))
         os.makedirs(out, exist_ok=True)
         shutil.copy(os.path.join(s, "patch.rebased.diff") if os.path.exists(os.path.join(s, "patch.rebased.diff")) else os.path.join(s, "patch.diff"), os.path.join(out, "patch.diff"))
         shutil.copy(os.path.join(s, "demo.sh"), os.path.join(out, "demo.sh"))
@@ -31,7 +35,7 @@ for pid in sorted(os.listdir(SRC)):
         meta = json.load(open(meta_p)) if os.path.exists(meta_p) else {}
         meta.update({
             "property": pid,
-            "origin": "written by a fresh sub-agent given only the property text and a scratch worktree (round %s)" % meta.get("round", "1"),
+            "origin": "written by a fresh sub-agent given only the property text and a scratch worktree (round %s)" % ROUND,
             "needs_to_manifest": (re.search(r"(?is)(needs?|circumstances|manifest)[^\n]*\n(.{0,600})", md) or [None, None, md[:400]])[2].strip()[:600],
             "confirmed_by": "tools/confirm_seeded.sh in a scratch worktree of /repo: patch applies; `cargo test --workspace --offline </dev/null` rc=%s with 0 failure lines; demo.sh rc=%s with the patch, rc=%s without" % (conf["tests_rc"], conf["demo_patched_rc"], conf["demo_clean_rc"]),
             "confirmed_at_repo_head": meta.get("confirmed_at_repo_head", head),
